@@ -35,9 +35,15 @@ def _seed_task(task):
     return gen07.run_seed(seed, profile)
 
 
-def _enum_task(task):
+def _enum_plan_task(task):
     scn, stride = task
-    return gen07.enumerate_crash_points(scn, stride=stride)
+    plans, viols = gen07.enumeration_plans(scn, stride=stride)
+    return {"scn": scn, "plans": plans, "violations": viols}
+
+
+def _enum_chunk_task(task):
+    scn, plans = task
+    return gen07.run_enumeration_chunk(scn, plans)
 
 
 def directed_known_scenarios():
@@ -166,8 +172,14 @@ def main(args):
             scns = scns[: args.enum_limit]
         stride = args.stride
         try:
-            eres = run_pool(_enum_task, [(s, stride) for s in scns], workers=workers,
-                            task_timeout=3000, wall_cap=None)
+            pres = run_pool(_enum_plan_task, [(s, stride) for s in scns], workers=workers, task_timeout=600)
+            chunks = []
+            for r in pres:
+                viols.extend(r["res"]["violations"])
+                pl = r["res"]["plans"]
+                for k in range(0, len(pl), 250):
+                    chunks.append((r["res"]["scn"], pl[k:k + 250]))
+            eres = run_pool(_enum_chunk_task, chunks, workers=workers, task_timeout=3000, wall_cap=None)
         except HarnessError as e:
             print("HARNESS-ERROR: %s" % e)
             return 2
